@@ -102,6 +102,15 @@ def build(spec, i, tag, p_read=0.3, outside=False, fault_mode="reissue"):
         if base_filter == "no_child_cr" and not H.is_root:
             flt = ["setitem", "delitem", "pop", "popitem", "update", "setdefault", "insert", "append",
                    "extend", "iadd", "remove", "reverse"]
+        if info.backend == "json" and r.random() < 0.03 and ms.truth[0] != MISSING and len(ms.obj_count) < 6:
+            # one more object on the resource, obtained by deep-copying / pickling an existing one
+            srcs = [h.id for h in attached if h.is_root]
+            if srcs:
+                steps.append({"new_root": next_id, "res": 0, "via": r.choice(["deepcopy", "deepcopy", "pickle"]),
+                              "src": r.choice(srcs)})
+                ms.add_root(next_id, 0)
+                next_id += 1
+                continue
         if r.random() < 0.04 and spec["stratum"] != "io_fault":
             # a multi-item mutator with one item that must be rejected: whatever part of it was applied, the
             # resource holds at once what a read shows (vf.session._do_rejected)
